@@ -114,6 +114,26 @@ struct SRun
     violation(prop, key, J{}.unum("tid", s.tid).str("op", s.pending_what).unum("backend_idle_cycles_since_call", idles).str("family", family).raw("cfg", world.describe()));
   }
 
+  // livelock verdict (logical): the backend has polled 30000 times, nothing reached a sink and it never went idle. Also
+  // reported for the property a still-parked caller belongs to (it waits for something the backend will never consume).
+  bool no_progress{false};
+  void report_no_progress(char const* family)
+  {
+    no_progress = true;
+    failed = true;
+    violation("C10", "backend-makes-no-progress", J{}.unum("polls_without_progress", polls_without_progress).unum("notifier_messages", recorder().notes.size()).str("last_note", recorder().notes.empty() ? "" : recorder().notes.back().second.substr(0, 200)).str("family", family).raw("cfg", world.describe()));
+    for (auto& s : ws)
+    {
+      if (s->exited || !s->w->parked()) continue;
+      char const* prop = nullptr;
+      char const* key = nullptr;
+      if (s->pending_what.rfind("log", 0) == 0 || s->pending_what == "probe") { prop = "C09"; key = "blocked-call-never-resumes-backend-does-not-consume-what-is-ahead"; }
+      else if (s->pending_what == "flush_log") { prop = "C06"; key = "flush-never-returns-backend-makes-no-progress"; }
+      else if (s->pending_what == "remove_logger_blocking") { prop = "C17"; key = "remove-logger-blocking-never-returns-backend-makes-no-progress"; }
+      if (prop) violation(prop, key, J{}.unum("tid", s->tid).str("op", s->pending_what).unum("polls_without_progress", polls_without_progress).str("family", family).raw("cfg", world.describe()));
+    }
+  }
+
   // Let one parked worker finish its operation: time passes, the backend polls, the worker retries.
   // Same logical progress verdict as drain().
   bool wait_for(SW& s, char const* family, uint64_t limit = 1000)
@@ -122,6 +142,14 @@ struct SRun
     while (s.w->parked())
     {
       vclock_jump(grace_ns + 10);
+      uint64_t const idle_now = g_idle_cycles.load();
+      uint64_t const evs_now = recorder().evs.size();
+      if (evs_now != last_evs || idle_now != last_idle) { last_evs = evs_now; last_idle = idle_now; polls_without_progress = 0; }
+      else if (++polls_without_progress > 30000)
+      {
+        report_no_progress(family);
+        return false;
+      }
       poll();
       if (resume(s)) return true;
       uint64_t idles = g_idle_cycles.load() - s.pending_since_idle;
@@ -166,8 +194,7 @@ struct SRun
       if (evs_now != last_evs || idle_before != last_idle) { last_evs = evs_now; last_idle = idle_before; polls_without_progress = 0; }
       else if (++polls_without_progress > 30000)
       {
-        violation("C10", "backend-makes-no-progress", J{}.unum("polls_without_progress", polls_without_progress).unum("notifier_messages", recorder().notes.size()).str("last_note", recorder().notes.empty() ? "" : recorder().notes.back().second.substr(0, 200)).str("family", family).raw("cfg", world.describe()));
-        failed = true;
+        report_no_progress(family);
         return false;
       }
       poll();
